@@ -15,7 +15,9 @@ Definition member := (bool * list id)%type.
 
 Record obs := {
   o_iter   : list id;                  (* ids yielded by iterate_tests(tree) *)
-  o_filter : list (list nat * id);     (* leaf paths of filter_by_ids(tree, keep) *)
+  o_filter : list (list (list nat) * id);  (* per test left by filter_by_ids(tree, keep), in iteration order: the
+                                          suites of the ORIGINAL tree that enclose it, outermost first (a suite
+                                          is named by its position path in the original tree), and its id *)
   o_sorted : res (list member) exn;    (* members of sorted_tests(tree, unpack), or what it raised *)
   o_list   : list id;                  (* run.list_test(tree)[0] *)
   o_cli_list : list id;                (* lines printed by `testtools.run --list`, as test numbers *)
@@ -68,7 +70,14 @@ Definition sorted_okb (i : input) (o : res (list member) exn) : bool :=
        | Raised _ => false
        end.
 
-Definition path_eqb : list nat * id -> list nat * id -> bool := pair_eqb (list_eqb Nat.eqb) Nat.eqb.
+(* Grouping.  A suite node of the tree is named by its position path; the suites that enclose the
+   leaf at path p are the nodes at the proper prefixes of p (theorem C19_enclosing), outermost first.
+   The index of the slot a test occupies in its suite is NOT part of its grouping: whether a removed
+   test leaves an empty placeholder suite behind or nothing cannot be told by looking at tests. *)
+Definition enclosing (p : list nat) : list (list nat) := map (fun k => firstn k p) (seq 0 (length p)).
+Definition grouped (pi : list nat * id) : list (list nat) * id := (enclosing (fst pi), snd pi).
+Definition group_eqb : list (list nat) * id -> list (list nat) * id -> bool :=
+  pair_eqb (list_eqb (list_eqb Nat.eqb)) Nat.eqb.
 
 (* ---- the list file: one test id per line ----
    The lines of a file are the pieces between line feeds.  A line lists the id
@@ -125,7 +134,7 @@ Definition wf (i : input) : Prop := forallb wf_nameb (names i) = true.
 
 Definition spec_okb (i : input) (o : obs) : bool :=
   list_eqb Nat.eqb (o_iter o) (leaves (tree i))
-  && list_eqb path_eqb (o_filter o) (filter (fun p => mem (snd p) (keep i)) (paths (tree i)))
+  && list_eqb group_eqb (o_filter o) (map grouped (filter (fun p => mem (snd p) (keep i)) (paths (tree i))))
   && sorted_okb i (o_sorted o)
   && list_eqb Nat.eqb (o_list o) (leaves (tree i))
   && list_eqb Nat.eqb (o_cli_list o) (leaves (tree i))
@@ -151,7 +160,7 @@ Definition Lists (f : bytes) (nm : bytes) : Prop :=
 
 Definition Spec (i : input) (o : obs) : Prop :=
   o_iter o = leaves (tree i)
-  /\ o_filter o = filter (fun p => mem (snd p) (keep i)) (paths (tree i))
+  /\ o_filter o = map grouped (filter (fun p => mem (snd p) (keep i)) (paths (tree i)))
   /\ Sorted_spec i (o_sorted o)
   /\ o_list o = leaves (tree i)
   /\ o_cli_list o = leaves (tree i)
